@@ -48,7 +48,7 @@ class C15(Check):
     assumptions = ['signal values symbolic reals in [-10, 10]; NaN patterns are enumerated and isolated (no two adjacent NaN), as the property quantifies',
                    'window 3: three symbolic positive weights in [1/8, 8]; windows 5 and 7: concrete catalogue %s; kernel objects with concrete width for filtering' % LISTS,
                    'sliding window of the built-in non-negative kernels %s with a SYMBOLIC width in [1, 2.5]: odd length, symmetric, sums to 1, non-negative' % KCLASSES]
-    outside = ['Filter_FFT', 'windows longer than 7', 'kernels with negative lobes (sinc)', 'numerical values of exp', 'windows in which every sample is NaN or outside the track, or whose remaining weights sum to 0']
+    outside = ['Filter_FFT', 'windows longer than 21', 'kernels with negative lobes (sinc)', 'numerical values of exp', 'windows in which every sample is NaN or outside the track, or whose remaining weights sum to 0']
     budget = {'quick': 200, 'thorough': 1800}
 
     def bounds(self, tier):
